@@ -197,7 +197,11 @@ func init() {
 		in := w.Insts[0]
 		st.K0 = simfs.MutOps(in.DataDir)
 		st.armedK = a.N
-		simfs.SetFaults([]simfs.Fault{{Prefix: in.DataDir, At: st.K0 + a.N, Kind: "crash"}}, nil)
+		kind := "crash"
+		if a.Str != "" {
+			kind = a.Str
+		}
+		simfs.SetFaults([]simfs.Fault{{Prefix: in.DataDir, At: st.K0 + a.N, Kind: kind}}, nil)
 	})
 	RegisterAction("c11_crash_restart", func(w *World, idx int, a *Action) {
 		st := c11st(w)
@@ -212,9 +216,16 @@ func init() {
 		ops := simfs.MutOps(in.DataDir) - st.K0
 		fired := simfs.Fired()["crash"] > 0
 		outcome := a.N
+		if a.Str == "disk-error" {
+			fired = simfs.Fired()["enospc"]+simfs.Fired()["eio"]+simfs.Fired()["short"] > 0
+			outcome = 1 // a kill: everything written survives
+			if fired {
+				w.H.Probe("disk-error-inside-snapshot")
+			}
+		}
 		w.CrashInst(0, func(path string) int { return outcome })
 		w.H.AddEvent("c11-crash", in.Name, fmt.Sprintf("armed_k=%d ops_seen=%d fired=%v outcome=%d files=%d", st.armedK, ops, fired, outcome, len(simfs.Files(in.DataDir))))
-		if fired {
+		if fired && a.Str != "disk-error" {
 			w.H.Probe("crashed-inside-snapshot")
 		} else {
 			w.H.Probe("crashed-after-snapshot-completed")
@@ -368,11 +379,16 @@ const c11Points = 14 // crash points tried per content: k = 0..13 (a snapshot pa
 
 func c11Gen(seed uint64, tier string) *Plan {
 	// seed -> (content, variant, crash point k, power-loss outcome)
-	per := uint64(c11Points * 3 * 2)
+	per := uint64(c11Points * 3 * 3)
 	content := seed / per
 	rest := seed % per
 	variant := "maintenance"
-	if rest >= uint64(c11Points*3) {
+	if rest >= uint64(c11Points*3*2) {
+		// a disk error (full disk, I/O error, short write) at operation k of a
+		// maintenance snapshot, then the process is killed before the next snapshot
+		variant = "disk-error"
+		rest -= uint64(c11Points * 3 * 2)
+	} else if rest >= uint64(c11Points*3) {
 		variant = "shutdown"
 		rest -= uint64(c11Points * 3)
 	}
@@ -407,13 +423,17 @@ func c11Gen(seed uint64, tier string) *Plan {
 		b.add(Action{At: maint + 5*time.Second, Kind: "c11_loader"})
 	}
 	var at Dur
-	if variant == "maintenance" {
+	if variant == "maintenance" || variant == "disk-error" {
 		at = 2*maint - time.Second
 	} else {
 		at = maint + rng.Dur(10*time.Second, maint-10*time.Second)
 	}
 	b.add(Action{At: at - time.Millisecond, Kind: "c11_capture", Str: "S2"})
-	b.add(Action{At: at, Kind: "c11_arm", N: k})
+	arm := Action{At: at, Kind: "c11_arm", N: k}
+	if variant == "disk-error" {
+		arm.Str = []string{"enospc", "eio", "short"}[outcome]
+	}
+	b.add(arm)
 	crashAt := at + 2*time.Second
 	if variant == "shutdown" {
 		crashAt = at + time.Millisecond
@@ -429,7 +449,7 @@ func init() {
 	Register(&Prop{
 		ID: "C11", Level: "fault_enumeration", Gen: c11Gen,
 		Check: func(p *Plan, r *RunResult) *Verdict { return &Verdict{} },
-		Rule: "case n = (content c, snapshot kind in {maintenance, shutdown}, crash point k in 0..13, power-loss outcome in {unsynced data lost, kept, torn}): every crash point of the snapshot pair (about 10 mutating file-system operations: create, write, sync, close, rename for each of the two files; k beyond the last one = crash right after completion) times every outcome is run for each content; contents have 0-60 (thorough up to 3000) silences/log entries per phase with 1-3 matcher sets, annotations, ended-but-retained silences, typed receiver data, new versions of old records in phase 2 and an API-created silence; one content in five also runs the loader on every prefix (all lengths up to 4 KiB, 600 sampled beyond) and 24 bit-flip corruptions of both snapshot files. Non-trivial: the restarted instance's state was compared with both snapshots; distinct: by (content, kind, k, outcome).",
+		Rule: "case n = (content c, kind in {crash in a maintenance snapshot, crash in the shutdown snapshot, disk error in a maintenance snapshot followed by a kill}, point k in 0..13, power-loss outcome in {unsynced data lost, kept, torn} resp. error in {ENOSPC, EIO, short write}): every crash point of the snapshot pair (about 10 mutating file-system operations: create, write, sync, close, rename for each of the two files; k beyond the last one = crash right after completion) times every outcome is run for each content; contents have 0-60 (thorough up to 3000) silences/log entries per phase with 1-3 matcher sets, annotations, ended-but-retained silences, typed receiver data, new versions of old records in phase 2 and an API-created silence; one content in five also runs the loader on every prefix (all lengths up to 4 KiB, 600 sampled beyond) and 24 bit-flip corruptions of both snapshot files. Non-trivial: the restarted instance's state was compared with both snapshots; distinct: by (content, kind, k, outcome).",
 		Real: []string{"app.New wiring", "silence.Silences and nflog.Log (Maintenance, Snapshot, openReplace/replaceFile, loadSnapshot, decodeState, Merge)", "app start-up on an existing data directory"},
 		Stub: []string{"clock (synctest)", "disk: simfs (in-memory, journalled; power-loss model: namespace operations survive in order, file data only up to the last Sync)"},
 		Assumptions: []string{"power-loss model: create/rename/remove are durable in issue order (ordered metadata journal), file data is durable only after Sync on that file; a kill without power loss is the outcome 'all written data kept'", "the two snapshot writers run one after the other at a maintenance tick (one P); the crash point indexes their combined operation sequence"},
